@@ -82,6 +82,10 @@ pub fn make_case(g: &mut Gen) -> Case {
         let v = match field { Field::Advance | Field::AdvanceHeight => *g.pick(U16_VALUES), Field::CompScale | Field::MixedScale => *g.pick(SCALES), Field::NestedScale => *g.pick(&[1.5, -1.5, 1.25, 2.0, 1.75, -2.0]), Field::PointGap => *g.pick(GAPS), _ => *g.pick(I16_VALUES) };
         if field == Field::AdvanceHeight && !vertical { continue; }
         if edits.iter().any(|(f, _, _)| *f == field) { continue; }
+        // outline and component fields all show in the resolved outlines of the composites of A: one of them per case,
+        // so that each read-back has a single cause
+        let shape = |f: Field| matches!(f, Field::PointX | Field::PointY | Field::CompOffsetX | Field::CompOffsetY | Field::CompScale | Field::NestedScale | Field::MixedScale);
+        if shape(field) && edits.iter().any(|(f, _, _)| shape(*f)) { continue; }
         // the component scale must be the same in every master (a varying 2x2 is decomposed for another reason)
         let targets: Vec<usize> = if matches!(field, Field::CompScale | Field::NestedScale | Field::MixedScale) { (0..n_src).collect() } else { vec![si] };
         for t in targets { apply(&mut font, field, v, t); }
